@@ -358,6 +358,12 @@ fn structural_cases(text: &str, out: &mut Vec<Case>) {
             push("raw-lt-in-content", splice(text, pos, 0, "< "), Expect::Reject);
             push("raw-amp-in-content", splice(text, pos, 0, "& "), Expect::Reject);
             push("unterminated-reference", splice(text, pos, 0, "&amp "), Expect::Reject);
+            // an unterminated reference with a long tail of multi-byte characters (error paths that
+            // cut or quote the offending text)
+            for k in [29usize, 30, 31, 32, 33] {
+                let tail = format!("&{}\u{e9}\u{1F600}\u{e9}\u{1F600}\u{e9}\u{1F600}\u{e9}\u{e9} ", "a".repeat(k));
+                push("unterminated-reference-long-tail", splice(text, pos, 0, &tail), Expect::Reject);
+            }
             for r in [
                 "&#0;", "&#xFFFE;", "&#xFFFF;", "&#xD800;", "&#x110000;", "&#8;", "&#;", "&#x;", "&bogus;",
                 // values beyond any machine word
